@@ -1,5 +1,5 @@
 """X01 -- the blockstore GC locker: GC / pin sections, GCRequested, single-use Unlockers (spec/GCLocker)."""
-import json, threading
+import json, os, threading
 
 META = dict(
     spec="GCLocker",
@@ -50,30 +50,36 @@ def run(ctx):
     ctx.open_devs()
     res = {}
     quick = ctx.quick
+    phases = os.environ.get("VERIF_X01_PHASES", "MGT")     # debugging knob: e.g. "T" = binding by traces only
 
     # ---- phase M: safety (exhaustive), liveness, three controls that must fail
     def m_safety():
         res["safety"] = ctx.tlc_mc(S, "GCLocker.tla", "MCGCLocker.cfg" if quick else "MCGCLockerBig.cfg",
-                                   timeout=1500, deadlock=False, coverage=not quick)
+                                   timeout=3000, deadlock=False, coverage=not quick, workers=8)
+
+    def m_safety2():
+        res["safety2"] = ctx.tlc_mc(S, "GCLocker.tla", "MCGCLockerBig2.cfg", timeout=3000, deadlock=False, workers=8)
 
     def m_live(cfg):
         def f():
-            res[cfg] = ctx.tlc_mc(S, "GCLocker.tla", cfg, timeout=1500, deadlock=False)
+            res[cfg] = ctx.tlc_mc(S, "GCLocker.tla", cfg, timeout=3000, deadlock=False, workers=4)
         return f
 
     def m_ctl(cfg, want):
         def f():
-            r = ctx.tlc_mc(S, "GCLocker.tla", cfg, timeout=900, deadlock=False, expect_violation=True)
+            r = ctx.tlc_mc(S, "GCLocker.tla", cfg, timeout=1500, deadlock=False, expect_violation=True, workers=2)
             if not (r["violated"] and want in r["violated"]):
                 ctx.broken("non-vacuity control %s should violate %s in the model, got %s" % (cfg, want, r["violated"]))
         return f
 
     jobs = [m_safety]
-    if quick:
+    if "M" not in phases:
+        jobs = []
+    if quick and jobs:
         jobs += [m_live("MCLive12.cfg"), m_live("MCLive21.cfg"), m_ctl("MCCtlNoPref.cfg", "Temporal"),
                  m_ctl("MCCtlMultiUse.cfg", "MutualExclusion")]
-    else:
-        jobs += [m_live("MCLive.cfg"), m_live("MCLiveCoop.cfg"), m_live("MCLive12.cfg"), m_live("MCLive21.cfg"),
+    elif jobs:
+        jobs += [m_safety2, m_live("MCLive.cfg"), m_live("MCLiveCoop.cfg"), m_live("MCLive12.cfg"), m_live("MCLive21.cfg"),
                  m_ctl("MCCtlNoPref.cfg", "Temporal"), m_ctl("MCCtlReqLate.cfg", "Temporal"),
                  m_ctl("MCCtlReqLateInv.cfg", "WaitingVisible"), m_ctl("MCCtlMultiUse.cfg", "MutualExclusion")]
 
@@ -101,7 +107,7 @@ def run(ctx):
                    for s in b["steps"])
     # behaviour i runs through wrapper (i + off) % 3: 0 gclocker, 1 NewGCBlockstore, 2 CachedBlockstore
     vias = [ctx.seed % 3] if quick else [0, 1, 2]
-    for fam in ("bfs", "p3", "sim"):
+    for fam in (("bfs", "p3", "sim") if "G" in phases else ()):
         if not gen.get(fam):
             if not quick:
                 ctx.broken("generator family %s is empty" % fam)
@@ -113,35 +119,38 @@ def run(ctx):
             if ctx.violations:
                 break
     ctx.cov["exhaustive"] = True
-    if ctx.violations:
+    if ctx.violations or "T" not in phases:
         return                                   # a broken locker may dead-lock the free-running recorder
 
     # ---- phase T
     recs, out, rc = ctx.go_run(binp, "TestVerifX01", pkg="blockstore", mode="record", timeout=900)
-    if rc != 0 or len(recs) < 50:
+    if rc != 0 or not recs:
         ctx.broken("record driver died (rc=%s, %d events): %s" % (rc, len(recs), out[-1500:]))
         return
     ctx.sample([r for r in recs[:40]])
 
     def corrupt(rs):
-        """a pinner's Unlock call disappears from the log: it is still inside its section when the next GC
-        section opens -> must be rejected at the first later event that contradicts it"""
+        """a pinner's Unlock (Call and Ret) disappears from the log: the pinner is still inside its section, so
+        the first later event that is its own next call or the opening of a GC section must be rejected"""
         cands = []
         for i, r in enumerate(rs):
             if r["ev"] == "Call" and r["op"] == "Unlock" and r["p"].startswith("p"):
+                i2 = None
                 for j in range(i + 1, len(rs)):
                     e = rs[j]
                     if e["ev"] == "Reset":
                         break
-                    if e.get("p") == r["p"] or (e["ev"] == "Ret" and e.get("op") == "GCLock"):
-                        if e.get("p") != r["p"]:
-                            cands.append((i, j))
+                    if i2 is None and e.get("p") == r["p"]:
+                        i2 = j                                   # its Ret Unlock
+                        continue
+                    if i2 is not None and (e.get("p") == r["p"] or (e["ev"] == "Ret" and e.get("op") == "GCLock")):
+                        cands.append((i, i2, j))
                         break
         if not cands:
             return None, None
-        i, j = cands[len(cands) // 2]
+        i, i2, j = cands[len(cands) // 2]
         s0 = max(k for k in range(i) if rs[k]["ev"] == "Reset")      # only the run that is corrupted
-        bad = [dict(r) for k, r in enumerate(rs) if k != i and s0 <= k < j + 40]
-        return bad, j - 1 - s0
+        bad = [dict(r) for k, r in enumerate(rs) if k not in (i, i2) and s0 <= k < j + 40]
+        return bad, j - 2 - s0
     ctx.validate_trace(S, "TraceGCLocker.tla", "TraceGCLocker.cfg", recs, timeout=1500,
                        count_runs=lambda rs: sum(1 for r in rs if r["ev"] == "Reset"), negative=corrupt)
